@@ -27,6 +27,9 @@ def run_model(model, tokens):
         text = ' ' + ' '.join(tokens) + ' '
         return (1 if any((' ' + sh + ' ') in text for sh in model[1]) else 0,
                 '', '')
+    if kind == 're':
+        import re
+        return (1 if re.search(model[1], ' '.join(tokens)) else 0, '', '')
     if kind == 'and':
         return (1 if all(run_model(m, tokens)[0] for m in model[1:]) else 0,
                 '', '')
